@@ -75,7 +75,28 @@ def run(facts, R):
         for w in field_writes(facts, inner, "next_id"):
             R.bad("id-source", w["body"].path, "next_id:" + w["kind"], "next_id is written outside its constructor", w["span"])
 
-        for fn in (callfn,) + fwds:
+        # derived call functions: any other function of the module that registers a waiter and writes a request (a `forward_message`
+        # added to a client that had none, a pipelined batch sender) carries the same obligations; one that keeps the id of the message
+        # it is handed is a forwarder, one that builds its message is a caller
+        derived_calls = []
+        wr_name = module + "::" + callfn.split("::")[1] + "::write_request"
+        for p_, b_ in sorted(facts.bodies.items()):
+            if p_.split("::")[0].lstrip("<") != module or p_ in (callfn,) + tuple(fwds) or "::tests::" in p_:
+                continue
+            if not any(callee_matches(t_["callee"], wr_name) for _, t_ in b_.calls()):
+                continue
+            s_ = Sym(b_)
+            if _registrations(b_, s_, module):
+                derived_calls.append(p_)
+                R.note("derived call function of %s (judged like %s): %s" % (module, callfn.rsplit("::", 2)[-2 if "{closure" in callfn else -1], p_))
+        fwd_like = set(fwds)
+        for p_ in derived_calls:
+            b_ = facts.body(p_)
+            s_ = Sym(b_)
+            rg_ = _registrations(b_, s_, module)
+            if rg_ and not is_call(rg_[0][2], "next_request_id"):
+                fwd_like.add(p_)
+        for fn in (callfn,) + tuple(fwds) + tuple(derived_calls):
             b = facts.body(fn)
             sym = Sym(b)
             regs = _registrations(b, sym, module)
@@ -85,7 +106,7 @@ def run(facts, R):
             if len(regs) != 1:
                 continue
             ri, rt, key = regs[0]
-            is_fwd = fn in fwds
+            is_fwd = fn in fwd_like
             for wi, wt in writes:
                 msg = sym.op(wt["args"][1])
                 fs = facts_at(b, sym, facts, wi)
@@ -284,6 +305,27 @@ def run(facts, R):
             R.bad("own-entry-only", v["fn"], v["what"], v["msg"] + " (a served call's late Drop would remove whatever entry now sits under its id)", v.get("site"), v.get("path"))
 
     every_response_is_looked_up(facts, R, "deliver-by-key")
+
+    # derived batch functions: any other function of a client module that returns one Result per request (Vec<Result<Value, RepeError>>) is
+    # a batch of its own design (pipelined, windowed, ..).  Its slot discipline cannot be read off a fixed shape, but positional alignment
+    # has a structural necessary condition: nothing between the requests and the returned vector reorders, filters or races items
+    listed_batches = ("client::Client::batch_json_inner", "async_client::AsyncClient::batch_json_inner", "websocket_client::WebSocketClient::batch_json_inner")
+    for p_, b_ in sorted(facts.bodies.items()):
+        if p_.split("::")[0] not in ("client", "async_client", "websocket_client") or "::tests::" in p_ or "{closure" in p_ and not p_.endswith("::{closure#0}"):
+            continue
+        base_ = p_[:-len("::{closure#0}")] if p_.endswith("::{closure#0}") else p_
+        if base_ in listed_batches or p_ in listed_batches:
+            continue
+        rty = b_.local_ty(0)
+        if not (rty.startswith("std::vec::Vec<std::result::Result<") and "RepeError" in rty) or (b_.kind != "coroutine" and p_.endswith("::{closure#0}")):
+            continue
+        if not any(t_["callee"]["name"].startswith(("call_", "wait_for_response", "write_request", "send_registered")) or "batch" in t_["callee"]["name"] for sb_ in [b_] + list(facts.children(p_)) for _, t_ in sb_.calls()):
+            continue
+        bad_ = sorted({t_["callee"]["name"] for sb_ in [b_] + list(facts.children(p_)) for _, t_ in sb_.calls()
+                       if t_["callee"]["name"] in _ORDER_BREAKING or "Unordered" in t_["callee"]["path"]})
+        R.check(not bad_, "index-travels", p_, "a batch of another design keeps request order",
+                "%s returns one result per request but passes them through %s: slot i need not hold the answer to request i" % (p_.rsplit("::", 2)[-2 if "{closure" in p_ else -1], bad_),
+                b_.span, "no reordering / filtering / racing adaptor between requests and results")
 
     # ---------------- index-travels (batch) ---------------------------------------------------------------
     batch_blocking(facts, R)
